@@ -40,6 +40,24 @@ class SyncEnv(Env):
         bt = dict(st.gget('btasks', {})); bt[n] = {'closure': root, 'state': 'queued', 'result': None, 'spawned_by': th.name}
         st.gset('btasks', bt)
         st.logev('spawn_blocking', n, th.name)
+        if st.gget('spawn_now') and th.kind == 'async':
+            # a spawn is a schedule point of the spawning thread: the pool may run the new task to completion before the spawner
+            # executes its next statement (here: before the rest of the wrapper's drop glue runs)
+            from .core import Thread
+            st.gset('spawn_now', False)
+            name = f'B{n}'; thb = Thread(name, 'blocking'); st.threads[name] = thb; thb.result = None
+            clo = st.heap.pop(root); bt[n] = dict(bt[n], closure=None); st.gset('btasks', dict(bt))
+            r = M.call_value(st, thb, clo, [])
+            outs = []
+            for x in ([st] if r is None else [x_ for x_, _ in r]):
+                for y in (M.run(x, name) if x.threads[name].stack else [x]):
+                    thy = y.threads[name]
+                    if thy.stack: continue          # the task cannot finish in this window (inside a closure / waiting for a lock): not this schedule
+                    resv = thy.result; rr = ok(resv[1]) if resv and resv[0] == 'ok' else err(Agg('JoinError', []))
+                    b2 = dict(y.gget('btasks')); b2[n] = dict(b2[n], state='done', result=y.alloc(rr), panicked=not (resv and resv[0] == 'ok')); y.gset('btasks', b2)
+                    y.threads.pop(name, None); y.logev('ran_inside_spawn', n)
+                    outs.append(('ret', y, Agg('JoinHandle', [I(n)])))
+            return outs
         return s.ret(st, Agg('JoinHandle', [I(n)]))
     p_task__spawn_blocking = p___spawn_blocking
 
@@ -70,7 +88,9 @@ class SyncEnv(Env):
     # ---- the wrapped value and the user's closures
     def d_Val(s, M, st, th, v):
         st.logev('val_drop', v.f[0].tag, th.name, th.kind)
-        if any(t['state'] == 'running' for t in st.gget('btasks', {}).values()): st.gset('drop_while_running', True)
+        # "still using it": a task that is inside its closure - not the task whose closure has returned and which is now letting go of
+        # its own reference (a value destroyed by the last reference after the last closure finished is what the property asks for)
+        if any(t['state'] == 'running' and k not in st.gget('closure_done', ()) for k, t in st.gget('btasks', {}).items()): st.gset('drop_while_running', True)
         st.gset('val_drops', st.gget('val_drops', ()) + ((v.f[0].tag, th.name, th.kind),))
         return True
 
@@ -95,6 +115,7 @@ class SyncEnv(Env):
         return None
 
     def _closure_finish(s, M, st, th, k, want, alive):
+        if th.name.startswith('B') and th.name[1:].isdigit(): st.gset('closure_done', st.gget('closure_done', ()) + (int(th.name[1:]),))
         st.logev('closure_run', k, th.name, th.kind, 'alive' if alive else 'dead')
         st.gset('closure_runs', st.gget('closure_runs', ()) + ((k, th.name, th.kind, alive, len(st.gget('val_drops', ()))),))
         if want == 'panic': return [('panic', st, f'user closure {k} panicked', 'user')]
@@ -160,6 +181,7 @@ class SyncBSE:
                 for o in s.cfg['outcomes']: acts.append(('interact', o))
             acts.append(('drop_wrapper',))
             if s.cfg.get('unwinding_drop', True): acts.append(('drop_wrapper', 'unwinding'))      # the owner of the wrapper panics: dropped during unwinding
+            if s.cfg.get('spawn_point', True): acts.append(('drop_wrapper', 'task_runs_at_once'))  # the pool runs the task Drop spawns before the drop glue continues
             acts.append(('is_poisoned',))
         return acts
 
@@ -221,8 +243,10 @@ class SyncBSE:
             w = st.heap.pop(st.gget('wrapper')); st.gset('wrapper', None); st.gset('phase', 'dropped')
             unw = len(a) > 1 and a[1] == 'unwinding'
             if unw: st.threads['A'].panicking = True          # std::thread::panicking() is true while the wrapper's Drop runs
+            if len(a) > 1 and a[1] == 'task_runs_at_once': st.gset('spawn_now', True)
             for st1, r in W.drop(st, 'A', [w]):
                 if unw: st1.threads['A'].panicking = False
+                st1.gset('spawn_now', False)
                 st1.gset('last', {'act': a, 'res': r}); outs.append(st1)
             return outs
         if a[0] == 'is_poisoned':
